@@ -26,6 +26,8 @@ theorem decode_encode (m : Msg) (h : WF m) (rest : Bytes) :
   simp only [decode, encodeBytes, nonRepeatSize, repeatSize, repeatCount, h33]
   rfl
 
+theorem wfBool_iff (m : Msg) : wfBool m = true ↔ WF m := At5C033.wfBool_iff m.toStatus
+
 /-- the control decoder never yields the request form: an empty header is a `DecodeError` -/
 theorem decode_empty_header (buffer : Bytes) (nonRepeat : Nat) :
     decode buffer nonRepeat 0 0 = .error .decodeError := by
